@@ -117,6 +117,14 @@ def run_history(spec):
         c.write()
         inp = c.read()
         base = freeze(inp.data)
+
+        def mat_state():
+            out = {}
+            for name, m_ in sorted(getattr(inp, "materials", {}).items()):
+                out[name] = tuple(repr(getattr(m_, at, None)) for at in
+                                  ("temperature", "density", "viscosity", "heat_capacity", "thermal_conductivity"))
+            return out
+        mats0 = mat_state()
         digests = []
         for i in range(k):
             try:
@@ -140,6 +148,13 @@ def run_history(spec):
                     o.fail("input_mutated_by_postprocess", "after run %d: %s" % (i + 1, d))
                     break
             digests.append(result_digest(r))
+            mats1 = mat_state()
+            for name in mats0:
+                if mats1.get(name) != mats0[name]:
+                    o.fail("input_material_state_changed", "after build and sweep %d: material %s %s -> %s"
+                           % (i + 1, name, mats0[name][:2], mats1.get(name, ())[:2]))
+            mats0 = mats1
+            o.checks += 1
         for i in range(1, len(digests)):
             o.check(digests[i] == digests[0], "model_%d_differs_from_first" % (i + 1),
                     "results of construction %d are not bitwise those of construction 1" % (i + 1))
@@ -307,9 +322,11 @@ def with_models(draw, spec, p_model=2):
 def history_cases(draw, q):
     spec = draw(gen.core_spec(core_rings=(1, 2), n_types=(1, 2), rings=(2, 3), ducts=(1, 2), gap_models=("flow", "none", "no_flow"),
                               regimes=("lam", "tra", "tur"), n_steps=(10, 25), lowfi=True, regions=True, max_cells=2,
-                              byp_frac=(0.02, 0.3), coolant=draw(st.sampled_from(["const", "sodium"]))
-                              if False else "const", dT=(20.0, 120.0), bc_kinds=("FLOWRATE", "OUTLET_TEMP", "DELTA_TEMP")))
+                              byp_frac=(0.02, 0.3), coolant=draw(st.sampled_from(["const", ["sodium", "nak"]])),
+                              dT=(20.0, 120.0), bc_kinds=("FLOWRATE", "OUTLET_TEMP", "DELTA_TEMP")))
     spec = with_models(draw, spec)
+    if spec["core"]["coolant_material"] != "cool_c" and draw(st.booleans()):
+        spec["setup"]["param_update_tol"] = gen.r6(draw(gen.logfl(1e-3, 0.1)))
     if draw(st.booleans()):
         spec["setup"]["axial_plane_frac"] = [round(draw(gen.fl(0.05, 0.95)), 3) for _ in range(draw(st.integers(1, 3)))]
     # normalisation and scaling options (the requested core power absent / given, scaling factor absent / given)
